@@ -20,9 +20,10 @@ PortSets == {<<Por(1, 2), Por(1, 2)>>, <<Por(1, 3), Por(2, 3)>>, <<Por(1, 3), Re
              <<Por(1, 2), Por(1, 4)>>, <<Por(2, 3), Por(2, 3)>>, <<Por(1, 2), Por(1, 2), Remaining>>}
 \* portions given by variables (negative denominator): with `remaining`; alone (refused whatever their values); next to a
 \* literal that already makes 100% or that does not
-VarPortSets == {<<Por(1, -3), Remaining>>, <<Por(1, -2), Por(1, -2)>>, <<Por(1, -3), Por(1, -3)>>, <<Por(1, 2), Por(1, -2)>>,
+VarPortSets == {<<Por(0, -3), Remaining>>, <<Por(0, -2), Por(2, 3), Remaining>>, <<Por(1, -3), Remaining>>, <<Por(1, -2), Por(1, -2)>>, <<Por(1, -3), Por(1, -3)>>, <<Por(1, 2), Por(1, -2)>>,
                 <<Remaining, Por(3, -4)>>, <<Por(1, -4), Por(1, 2), Remaining>>, <<Por(1, -4), Por(1, -4), Por(1, -2)>>}
-Port3Sets == {<<Por(1, 3), Por(1, 3), Remaining>>, <<Por(1, 4), Por(1, 4), Por(1, 2)>>, <<Por(1, 7), Por(2, 7), Remaining>>,
+Port3Sets == {<<Por(0, 3), Por(1, 3), Por(2, 3)>>, <<Por(1, 2), Por(0, 1), Por(1, 2)>>, <<Por(0, 1), Remaining, Por(1, 2)>>,
+              <<Por(1, 3), Por(1, 3), Remaining>>, <<Por(1, 4), Por(1, 4), Por(1, 2)>>, <<Por(1, 7), Por(2, 7), Remaining>>,
               <<Remaining, Por(1, 3), Remaining>>}
 SA == {SAllot(ps, <<s, t>>) : ps \in {p \in PortSets : Len(p) = 2}, s, t \in S0}
       \cup {SAllot(ps, <<s, t, u>>) : ps \in Port3Sets, s, t, u \in {SAcct("a", -1), SAcct("b", -1), SAcct("world", -1), SAcct("b", 2)}}
